@@ -1,7 +1,7 @@
 #!/bin/bash
 # tools/run_all.sh [quick|thorough] [extra check args…]: every claimed check once, summary lines only
 tier=${1:-quick}; shift
-cd /verif
+cd "$(dirname "$0")/.."
 for id in $(python3 -c "import json; print(' '.join(c['property_id'] for c in json.load(open('MANIFEST.json'))['checks']))"); do
   out=$(./check $id --tier $tier "$@" 2>&1); rc=$?
   echo "$id exit=$rc $(echo "$out" | grep -E '^summary' | cut -c1-160)"
